@@ -3258,6 +3258,7 @@ where
 
             cv.state.generic_rules = self.state.generic_rules.clone();
             cv.state.eval_generic_rule = Some(ident.ident);
+            cv.state.visited_rules = self.state.visited_rules.clone();
             cv.state.is_group_to_choice_enum = true;
             cv.state.is_multi_type_choice = self.state.is_multi_type_choice;
             cv.visit_rule(rule)?;
@@ -3329,6 +3330,7 @@ where
 
             cv.state.generic_rules = self.state.generic_rules.clone();
             cv.state.eval_generic_rule = Some(ident.ident);
+            cv.state.visited_rules = self.state.visited_rules.clone();
             cv.state.is_multi_type_choice = self.state.is_multi_type_choice;
             cv.visit_rule(rule)?;
 
@@ -3401,6 +3403,7 @@ where
 
             cv.state.generic_rules = self.state.generic_rules.clone();
             cv.state.eval_generic_rule = Some(ident.ident);
+            cv.state.visited_rules = self.state.visited_rules.clone();
             cv.state.is_multi_type_choice = self.state.is_multi_type_choice;
             cv.visit_rule(rule)?;
 
@@ -4369,6 +4372,7 @@ where
 
         cv.state.generic_rules = self.state.generic_rules.clone();
         cv.state.eval_generic_rule = Some(entry.name.ident);
+        cv.state.visited_rules = self.state.visited_rules.clone();
         if let Some(rule) = cv
           .state
           .generic_rules
